@@ -25,6 +25,8 @@ var alignNames = []string{"unset", "left", "right", "centre"}
 type c08Case struct {
 	Table  gen.TableSpec `json:"table"`
 	Aligns []int         `json:"alignment_column0_then_columns"`
+	Mode   string        `json:"mode,omitempty"`
+	st     *stage
 }
 
 func applyAligns(t tabular.Table, a []int) {
@@ -53,9 +55,31 @@ var c08Delim = regexp.MustCompile(`^(:?)-{3,}(:?)$`)
 func c08Check(c *Ctx, cs *c08Case, sample bool) {
 	spec := &cs.Table
 	c.Case = cs
-	b := spec.Build(tabular.New())
-	applyAligns(b.T, cs.Aligns)
-	out, err := markdown.Wrap(b.T).Render()
+	t0 := tabular.New()
+	mw := markdown.Wrap(t0)
+	if st := cs.st; st != nil {
+		cs.Mode = st.Note
+		b := spec.BuildStaged(t0, st.At, func() {
+			applyAligns(t0, st.PreAligns)
+			mw.Render()
+		})
+		applyAligns(t0, st.PreAligns)
+		mw.Render()
+		b.Finalize()
+		setAlignsExactly(t0, cs.Aligns) // final assignment in force; settings of the earlier one are withdrawn
+		c.Rec.Count("staged_cases(render, change, render again through the same wrapper)", 1)
+	} else {
+		spec.Build(t0)
+		applyAligns(t0, cs.Aligns)
+	}
+	out, err := mw.Render()
+	if cs.st != nil {
+		// a fresh wrapper around the same table must agree with the reused one
+		if out2, err2 := markdown.Wrap(t0).Render(); out2 != out || (err2 != nil) != (err != nil) {
+			c.Rec.Violate("markdown:fresh-wrapper-differs-from-reused", fmt.Sprintf("after render/change/render: the reused wrapper gives %q (err %v), a fresh wrapper around the same table %q (err %v)", out, err, out2, err2), cs)
+			return
+		}
+	}
 	n := spec.NCols()
 	nontrivial := n > 0 && spec.HasHeader && spec.NBody() > 0
 	c.Rec.Eval(gen.Hash64(spec.Shape(), fmt.Sprint(spec.HeaderTexts()), fmt.Sprint(textsOf(spec)), fmt.Sprint(cs.Aligns)), nontrivial)
@@ -177,6 +201,7 @@ func c08Random(c *Ctx, i int, r *gen.R) {
 			cs.Aligns[k] = r.Intn(4)
 		}
 	}
+	cs.st = drawStage(r, len(spec.Rows), spec.NCols())
 	c08Check(c, cs, true)
 }
 
@@ -194,7 +219,11 @@ func c08Alignments(c *Ctx, i int, r *gen.R) {
 		spec.Header = []gen.ItemSpec{gen.StrItem("h|1"), gen.StrItem("")}
 		spec.Rows = []gen.RowSpec{{Items: []gen.ItemSpec{}}, {Items: []gen.ItemSpec{gen.StrItem("a\nb"), gen.StrItem("<>&"), gen.StrItem("wide wide wide")}, Mode: gen.ModeNewRowAdd}}
 	}
-	c08Check(c, &c08Case{Table: spec, Aligns: a}, i%64 == 9)
+	cs := &c08Case{Table: spec, Aligns: a}
+	if i%2 == 1 {
+		cs.st = &stage{At: i % 3, PreAligns: []int{(i / 8) % 4, (i / 2) % 4, i % 4, (i / 32) % 4}, Note: "staged: wrapper reused, other alignments at the first render"}
+	}
+	c08Check(c, cs, i%64 == 9)
 }
 
 // hostile atoms in every cell position of a 3-column row and header
